@@ -13,7 +13,7 @@ func init() {
 		ID:          "C08",
 		Explanation: "(R8.1) no certificate line is added to the clause set unless the reverse-unit-propagation test on that very line succeeded; (R8.2) every function that checks a certificate re-initialises the tags and defers the restoration of the clause set before doing anything else; (R8.3) the RUP test saves the unit bindings before its first write and stores them back on every path to return; (R8.4) every clause used for a propagation or a conflict is tagged (the unsatisfiable subset is read from the tags); (R8.5) the reader-based and the channel-based entry points perform the same per-line steps.",
 		NotDecided:  "that the naive propagation loop computes exactly unit propagation to fixpoint, and the behaviour of the checker on every certificate.",
-		Rules:       []ruleFn{ruleR8_1, ruleR8_2, ruleR8_3, ruleR8_4, ruleR8_5, ruleR8_6, ruleR8_7, ruleR8_8, ruleR8_9, ruleR7_3, ruleR13_10},
+		Rules:       []ruleFn{ruleR8_1, ruleR8_2, ruleR8_3, ruleR8_4, ruleR8_5, ruleR8_6, ruleR8_7, ruleR8_8, ruleR8_9, ruleR8_10, ruleR7_3, ruleR13_10},
 	})
 }
 
@@ -347,24 +347,18 @@ func ruleR8_3(w *World, r *Report) {
 func ruleR8_4(w *World, r *Report) {
 	r.Rule("R8.4", "in the propagation loop of (*Problem).unsat every unit binding derived from a clause and every conflict found in a clause is accompanied, on every path of the same iteration, by tagging that clause under the guard index < NbClauses", 2)
 	var fn *ssa.Function
+	eff := w.effects()
 	for _, f := range w.Fns {
 		if w.PkgName(f) == "explain" && f.Signature.Recv() != nil && f.Signature.Params().Len() == 0 && f.Signature.Results().Len() == 1 &&
 			typeShort(f.Signature.Results().At(0).Type()) == "bool" && typeShort(f.Signature.Recv().Type()) == "*explain.Problem" {
-			// the propagation method writes units
-			writes := false
-			allInstrs(f, func(ins ssa.Instruction) {
-				if st, ok := ins.(*ssa.Store); ok {
-					if ia, ok := st.Addr.(*ssa.IndexAddr); ok {
-						if _, ok := isFieldLoad(ia.X, "explain.Problem", "units"); ok {
-							writes = true
-						}
-					}
-				}
-			})
-			if writes {
+			// the propagation method writes units (itself, or by handing the table to a helper that writes it)
+			if eff.DirectWritesAny(f, "explain.Problem.units") {
 				fn = f
 			}
 		}
+	}
+	if _, core := propagationCore(w); core != nil {
+		fn = core // the function holding the sweep over the clauses (the method itself or its helper)
 	}
 	if fn == nil {
 		r.Unk("R8.4", "propagation method", "-", "no method func (*Problem) () bool writing units found in package explain")
@@ -455,6 +449,9 @@ func ruleR8_4(w *World, r *Report) {
 			if g.blk == ub && sameBlock[ub] {
 				return true
 			}
+			if _, isRet := u.(*ssa.Return); g.blk == ub && !isRet {
+				return true // the use sits in the block that ends with the guard
+			}
 			if g.blk.Dominates(ub) && g.blk != ub {
 				// the guard must belong to the same iteration: no back edge between guard and use, i.e. use reachable
 				// from guard without passing the loop header again is implied by dominance inside the loop body
@@ -501,6 +498,25 @@ func ruleR8_4(w *World, r *Report) {
 	n := 0
 	allInstrs(fn, func(ins ssa.Instruction) {
 		switch x := ins.(type) {
+		case *ssa.Call:
+			// a helper that is handed the table of bindings and writes it (`bind(pb.units, unit)`)
+			callee := x.Call.StaticCallee()
+			if callee == nil {
+				return
+			}
+			hit := false
+			for i, a := range x.Call.Args {
+				if _, ok := isFieldLoad(a, "explain.Problem", "units"); ok && eff.WritesParamElems(callee, i) {
+					hit = true
+				}
+			}
+			if !hit {
+				return
+			}
+			n++
+			key := fmt.Sprintf("%s unit binding #%d", w.FuncName(fn), n)
+			r.Check(covered(x), "R8.4", key, w.InstrPos(x), "the clause that produced the binding is tagged in the same iteration",
+				"a unit binding is derived from a clause that is not tagged on every path: the extracted subset can miss a clause it needs and be satisfiable")
 		case *ssa.Store:
 			ia, ok := x.Addr.(*ssa.IndexAddr)
 			if !ok {
@@ -514,7 +530,7 @@ func ruleR8_4(w *World, r *Report) {
 			r.Check(covered(x), "R8.4", key, w.InstrPos(x), "the clause that produced the binding is tagged in the same iteration",
 				"a unit binding is derived from a clause that is not tagged on every path: the extracted subset can miss a clause it needs and be satisfiable")
 		case *ssa.Return:
-			if len(x.Results) == 1 {
+			if len(x.Results) >= 1 && typeShort(x.Results[0].Type()) == "bool" {
 				if k, ok := x.Results[0].(*ssa.Const); ok && k.Value != nil && k.Value.String() == "true" {
 					n++
 					key := fmt.Sprintf("%s conflict #%d", w.FuncName(fn), n)
